@@ -50,16 +50,16 @@ theorem init_normalised (emp : D) (id : Option Int) (T off : Int) (dur : DurIn) 
 
 /-- the duration held is the timedelta given; `n` seconds for an int `n`; and exactly `D` µs for
     the double nearest to `D / 10⁶` seconds (what `total_seconds()` and JSON carry), for every
-    `0 ≤ D < 2³²·10⁶` µs — in particular for `D ≤ 2⁴³` -/
+    `|D| < 2³²·10⁶` µs (136 years, either sign) — in particular for `0 ≤ D ≤ 2⁴³` -/
 theorem duration_exact :
     (∀ d : Int, setDuration (.td d) = .ok d) ∧
     (∀ n : Int, tdMinUs ≤ n * 1000000 → n * 1000000 ≤ tdMaxUs →
       setDuration (.int n) = .ok (n * 1000000)) ∧
-    (∀ Dus : Int, 0 ≤ Dus → Dus < 4294967296000000 →
+    (∀ Dus : Int, -4294967296000000 < Dus → Dus < 4294967296000000 →
       setDuration (.float (totalSeconds Dus)) = .ok Dus) := by
   refine ⟨fun d => rfl, fun n h0 h1 => mkTimedelta_ok _ h0 h1, fun Dus h0 h1 => ?_⟩
   show mkTimedelta (tdOfSeconds (totalSeconds Dus)) = .ok Dus
-  rw [td_total_roundtrip Dus h0 h1]
+  rw [td_total_roundtrip_abs Dus h0 h1]
   apply mkTimedelta_ok <;> simp only [tdMinUs, tdMaxUs] <;> omega
 
 /-- for *every* double `r` of seconds that `timedelta` accepts, the duration held is `r` to the
@@ -86,8 +86,8 @@ theorem json_shape (e : Ev D) :
 
 /-- `Event(**json.loads(e.to_json_str()))` is `e` again — same instant, duration, data *and* id —
     for every event with a millisecond-aligned timestamp (every event built by `Event(...)`, see
-    `init_normalised`) and `0 ≤ duration ≤ 2⁴³` µs -/
-theorem json_roundtrip (emp : D) (e : Ev D) (hts : 1000 ∣ e.ts) (h0 : 0 ≤ e.dur)
+    `init_normalised`) and `-2⁴³ ≤ duration ≤ 2⁴³` µs (in particular `0 ≤ D ≤ 2⁴³`) -/
+theorem json_roundtrip (emp : D) (e : Ev D) (hts : 1000 ∣ e.ts) (h0 : -(2 ^ 43) ≤ e.dur)
     (h1 : e.dur ≤ 2 ^ 43) : ofJson emp (toJson e) = .ok e := by
   obtain ⟨id, ts, dur, data⟩ := e
   simp only at hts h0 h1
@@ -97,7 +97,7 @@ theorem json_roundtrip (emp : D) (e : Ev D) (hts : 1000 ∣ e.ts) (h0 : 0 ≤ e.
     simp only [Int.add_zero] at this
     rw [this]; simp only [Aware.mk.injEq, and_true]; omega
   have hdur : setDuration (.float (totalSeconds dur)) = .ok dur :=
-    duration_exact.2.2 dur h0 (by norm_num at h1; omega)
+    duration_exact.2.2 dur (by norm_num at h0; omega) (by norm_num at h1; omega)
   cases id <;>
     simp [ofJson, toJson, lookup, mk, astimezoneUtc, Aware.toDT, hinit, hdur, dataOr, bind,
       Except.bind, pure, Except.pure]
@@ -114,10 +114,11 @@ theorem copy_roundtrip (emp : D) (e : Ev D) (hts : 1000 ∣ e.ts) : copy emp e =
   simp [copy, mk, hinit, setDuration, dataOr, bind, Except.bind, pure, Except.pure]
 
 /-- end to end: whatever the zone, an event built from an aware timestamp and a duration of
-    `0 … 2⁴³` µs survives both rebuilds unchanged -/
+    `-2⁴³ … 2⁴³` µs survives both rebuilds unchanged -/
 theorem built_event_roundtrips (emp : D) (id : Option Int) (T off : Int) (dur : DurIn)
     (data : Option D) (e : Ev D) (h : 1000 ∣ off)
-    (hmk : mk emp id ⟨T + off, some off⟩ dur data = .ok e) (h0 : 0 ≤ e.dur) (h1 : e.dur ≤ 2 ^ 43) :
+    (hmk : mk emp id ⟨T + off, some off⟩ dur data = .ok e) (h0 : -(2 ^ 43) ≤ e.dur)
+    (h1 : e.dur ≤ 2 ^ 43) :
     ofJson emp (toJson e) = .ok e ∧ copy emp e = .ok e := by
   have hn := init_normalised emp id T off dur data e h hmk
   exact ⟨json_roundtrip emp e hn.2.1 h0 h1, copy_roundtrip emp e hn.2.1⟩
